@@ -180,6 +180,32 @@ TraceMutateIds ==
         /\ Follow(e, <<>>)
   /\ UNCHANGED <<C, issued>>
 
+\* Two handles on one database: an operator mutation by ids through a second handle and a batch lease operation through
+\* the main one, started together behind a held write lock and committed in the order the database grants.  The pair must
+\* behave like the two calls made one after the other in SOME order: results and final table are those of one of the two
+\* sequential executions - in particular a lease the operator's commit has voided is a conflict.
+HandleRaceSeq(e, opFirst) ==
+  LET f   == e.a.first
+      s   == e.a.second
+      arg == IF s.kind = "dead" THEN s.argn ELSE s.arg
+      m1  == IF opFirst THEN MutateIds(S.msgs, f.op, SeqRange(f.nids), e.now) ELSE [msgs |-> S.msgs, n |-> 0]
+      b   == LeaseBatch(C, m1.msgs, s.kind, s.lids, arg, e.now)
+      m2  == IF opFirst THEN m1 ELSE MutateIds(b.msgs, f.op, SeqRange(f.nids), e.now)
+  IN /\ e.r.first.n = m2.n
+     /\ b.ok = e.r.second.ok /\ BagEq(b.nf, e.r.second.nf) /\ BagEq(b.ex, e.r.second.ex)
+     /\ (IF opFirst THEN b.msgs ELSE m2.msgs) = e.post
+
+TraceHandleRace ==
+  /\ IsEvent("HandleRace")
+  /\ LET e == Trace[l]
+     IN /\ Chk("operator_err", e.r.first.err = "")
+        /\ Chk("lease_err", e.r.second.err = "")
+        /\ Chk("serializable", HandleRaceSeq(e, TRUE) \/ HandleRaceSeq(e, FALSE))
+        /\ Chk("vol", e.vol.lp = S.lp /\ e.vol.ls = S.ls)
+        /\ Chk("storeok", StoreOK(e.post))
+        /\ Follow(e, <<>>)
+  /\ UNCHANGED <<C, issued>>
+
 TraceMutateFilter ==
   /\ IsEvent("MutateFilter")
   /\ LET e    == Trace[l]
@@ -313,7 +339,7 @@ TraceStats ==
 
 Next ==
   \/ TraceReset \/ TraceTick \/ TraceReopen \/ TraceEnqueue \/ TraceDequeue \/ TraceLeaseOp \/ TraceLeaseBatch
-  \/ TraceMutateIds \/ TraceMutateFilter \/ TraceFilterSelect \/ TraceFilterApply \/ TraceListMessages \/ TraceListDead \/ TraceLookup \/ TraceStats
+  \/ TraceMutateIds \/ TraceHandleRace \/ TraceMutateFilter \/ TraceFilterSelect \/ TraceFilterApply \/ TraceListMessages \/ TraceListDead \/ TraceLookup \/ TraceStats
 
 Spec == Init /\ [][Next]_vars
 
